@@ -39,6 +39,78 @@ use vproj::cli::{CliResult, OutTree, Workspace};
 use vproj::genp::GenOpts;
 use vproj::toml::Target;
 
+/// Known finding: the specialisations of a generic module / package are
+/// emitted into the defining file in the order their users were analysed.
+const GENERIC_ORDER_KNOWN: &str = "emitted-sv-depends-on-order:generic-specialisations-in-registration-order";
+
+/// Top-level `module|package|interface … end…` blocks of an emitted file and
+/// the lines outside of them.
+fn sv_blocks(text: &str) -> (Vec<String>, Vec<String>) {
+    let mut blocks = vec![];
+    let mut outside = vec![];
+    let mut cur: Option<String> = None;
+    for line in text.lines() {
+        match cur.as_mut() {
+            Some(b) => {
+                b.push_str(line);
+                b.push('\n');
+                if line.starts_with("endmodule") || line.starts_with("endpackage") || line.starts_with("endinterface") {
+                    blocks.push(cur.take().unwrap());
+                }
+            }
+            None => {
+                if line.starts_with("module ") || line.starts_with("package ") || line.starts_with("interface ") {
+                    cur = Some(format!("{line}\n"));
+                } else {
+                    outside.push(line.to_string());
+                }
+            }
+        }
+    }
+    if let Some(b) = cur {
+        blocks.push(b);
+    }
+    (blocks, outside)
+}
+
+/// Same blocks, same lines around them, only the order of the blocks differs.
+/// Runs of blanks are compared as one blank: the specialisations of one
+/// generic definition share their source lines, so the emitter's vertical
+/// alignment of one specialisation takes its column widths from the one
+/// emitted last (`logic          clk` vs `logic         clk`) — a consequence of
+/// the same order.
+fn only_block_order_differs(a: &str, b: &str) -> bool {
+    let squeeze = |v: Vec<String>| -> Vec<String> {
+        v.into_iter()
+            .map(|x| {
+                let mut o = String::with_capacity(x.len());
+                let mut prev = false;
+                for c in x.chars() {
+                    if c == ' ' {
+                        if !prev {
+                            o.push(c);
+                        }
+                        prev = true;
+                    } else {
+                        o.push(c);
+                        prev = false;
+                    }
+                }
+                o
+            })
+            .collect()
+    };
+    let (ba, oa) = sv_blocks(a);
+    let (bb, ob) = sv_blocks(b);
+    let (mut ba, mut bb) = (squeeze(ba), squeeze(bb));
+    if oa != ob || ba == bb {
+        return false;
+    }
+    ba.sort();
+    bb.sort();
+    ba == bb
+}
+
 // ------------------------------------------------------------ in-process
 
 #[derive(Clone, Debug, Default, PartialEq)]
@@ -177,10 +249,11 @@ fn common_classes(p: &P2Project, n_files: usize) -> BTreeSet<String> {
     if p.root.cfg.strip_comments {
         c.insert("strip_comments".into());
     }
+    c.insert(if p.unified_generics { "one_specialisation_per_generic" } else { "generics_with_several_specialisations_possible" }.into());
     c
 }
 
-fn gen_opts(thorough: bool, std_per_mille: u32) -> P2Opts {
+fn gen_opts(thorough: bool, std_per_mille: u32, dep_weights: [u32; 3]) -> P2Opts {
     P2Opts {
         gopts: GenOpts {
             min_items: 5,
@@ -191,15 +264,17 @@ fn gen_opts(thorough: bool, std_per_mille: u32) -> P2Opts {
         },
         multi_sources: true,
         deps: true,
+        dep_weights,
         std_per_mille,
         collide_per_mille: 0,
         ensure_wildcard: true,
         single_def_per_mille: 250,
+        unify_generics_per_mille: 700,
     }
 }
 
 fn permute_case(d: &mut Draw, thorough: bool) -> Outcome {
-    let p = gen_p2(d, &gen_opts(thorough, 25));
+    let p = gen_p2(d, &gen_opts(thorough, 25, [5, 3, 3]));
     let ws = Workspace::new("c24a", &p.root.cfg.name);
     p.write(&ws, false);
     let summary = p.summary();
@@ -253,6 +328,8 @@ fn permute_case(d: &mut Draw, thorough: bool) -> Outcome {
     }
     let rel = |s: &str| s.replace(&format!("{}/", ws.scratch.path.to_string_lossy()), "");
     let mut filelist_varies = false;
+    let mut repeat_varies = false;
+    let mut known: Option<(String, serde_json::Value)> = None;
     for (name, perm) in &orders {
         let permuted: Vec<PathSet> = perm.iter().map(|i| paths[*i].clone()).collect();
         let order_txt: Vec<String> = permuted.iter().map(|x| rel(&x.src.to_string_lossy())).collect();
@@ -276,15 +353,24 @@ fn permute_case(d: &mut Draw, thorough: bool) -> Outcome {
                 mk(json!({"errors": rel(f)})),
             );
         }
-        if got.diags != base.diags {
+        // the property speaks of the *set* of diagnostics: how often one and
+        // the same diagnostic is repeated (once per elaborated instance of the
+        // module it sits in) is recorded, not asserted
+        let set = |v: &Vec<String>| -> BTreeSet<String> { v.iter().cloned().collect() };
+        if got.diags != base.diags && set(&got.diags) == set(&base.diags) {
+            repeat_varies = true;
+        }
+        if set(&got.diags) != set(&base.diags) {
             let only_b: Vec<String> = base.diags.iter().filter(|x| !got.diags.contains(x)).map(|x| rel(x)).collect();
             let only_g: Vec<String> = got.diags.iter().filter(|x| !base.diags.contains(x)).map(|x| rel(x)).collect();
             return Outcome::fail(
                 "diagnostics-depend-on-order",
                 format!(
-                    "diagnostic multiset differs for processing order {order_txt:?}\nonly in metadata order: {only_b:#?}\nonly in this order: {only_g:#?}\ncounts {} / {}\nproject: {summary}",
+                    "diagnostic multiset differs for processing order {order_txt:?}\nonly in metadata order: {only_b:#?}\nonly in this order: {only_g:#?}\ncounts {} / {}\nmetadata order: {:#?}\nthis order: {:#?}\nproject: {summary}",
                     base.diags.len(),
-                    got.diags.len()
+                    got.diags.len(),
+                    base.diags.iter().map(|x| rel(x)).collect::<Vec<_>>(),
+                    got.diags.iter().map(|x| rel(x)).collect::<Vec<_>>()
                 ),
                 mk(json!({"only_metadata_order": only_b, "only_this_order": only_g})),
             );
@@ -297,6 +383,21 @@ fn permute_case(d: &mut Draw, thorough: bool) -> Outcome {
                     mk(json!(null)),
                 );
             };
+            if text != t2 && only_block_order_differs(text, t2) {
+                // known finding: specialisations of a generic definition are
+                // emitted in the order the instantiations were registered;
+                // keep comparing everything else
+                if known.is_none() {
+                    known = Some((
+                        format!(
+                            "the top-level definitions emitted for {} are the same but come in another order for processing order {order_txt:?} (specialisations of a generic definition follow the order in which the files using them were analysed)\nproject: {summary}",
+                            rel(src)
+                        ),
+                        mk(json!({"file": rel(src), "metadata_order": text, "this_order": t2})),
+                    ));
+                }
+                continue;
+            }
             if text != t2 {
                 let first = text
                     .lines()
@@ -330,6 +431,9 @@ fn permute_case(d: &mut Draw, thorough: bool) -> Outcome {
             filelist_varies = true;
         }
     }
+    if let Some((msg, input)) = known {
+        return Outcome::fail(GENERIC_ORDER_KNOWN, msg, input);
+    }
     let mut classes = common_classes(&p, n);
     if !base.diags.is_empty() {
         classes.insert("has_warnings".into());
@@ -337,10 +441,88 @@ fn permute_case(d: &mut Draw, thorough: bool) -> Outcome {
     if filelist_varies {
         classes.insert("sort_filelist_order_varies_with_processing_order(not_asserted)".into());
     }
+    if repeat_varies {
+        classes.insert("repetition_count_of_one_warning_varies_with_processing_order(not_asserted)".into());
+    }
     let cross = !p.edges().is_empty();
     let nontrivial = n >= 4 && cross && p.has_wildcard();
     let text = format!("{summary}\norders: {:?}", orders.iter().map(|x| &x.1).collect::<Vec<_>>());
     Outcome::pass(hash_str(&text), nontrivial, classes.into_iter().collect(), text)
+}
+
+/// The hand-written reproducer of the listed finding, decided by the same
+/// comparison (metadata order vs reversed), independent of the generator.
+fn fixed_case(name: &str) -> Outcome {
+    let src = PathBuf::from("/verif/known/C24").join(name);
+    if !src.is_dir() {
+        return Outcome::skip(format!("reproducer {name} is missing"));
+    }
+    let ws = Workspace::new("c24f", "prj");
+    for (rel, bytes) in vcore::util::read_tree(&src) {
+        ws.write(&rel, &String::from_utf8_lossy(&bytes));
+    }
+    let Ok(root) = ws.root.canonicalize() else {
+        return Outcome::skip("scratch directory vanished");
+    };
+    let Ok(mut md) = Metadata::load(root.join("Veryl.toml")) else {
+        return Outcome::skip("reproducer Veryl.toml not accepted");
+    };
+    let Ok(paths) = md.paths::<PathBuf>(&[], true, true) else {
+        return Outcome::skip("Metadata::paths failed on the reproducer");
+    };
+    let (Ok(a), Ok(b)) = (run_order(&md, paths.clone()), run_order(&md, paths.iter().rev().cloned().collect())) else {
+        return Outcome::skip("reproducer panics");
+    };
+    if a.failed.is_some() || b.failed.is_some() {
+        return Outcome::skip("reproducer is not error-free");
+    }
+    for (src, (text, _)) in &a.emitted {
+        if let Some((t2, _)) = b.emitted.get(src)
+            && t2 != text
+        {
+            let sig = if only_block_order_differs(text, t2) { GENERIC_ORDER_KNOWN } else { "emitted-sv-depends-on-order" };
+            return Outcome::fail(
+                sig,
+                format!("{src}: emitted text differs between metadata order and reversed order\n--- metadata order\n{text}--- reversed\n{t2}reproducer: known/C24/{name}"),
+                json!({"reproducer": name}),
+            );
+        }
+    }
+    Outcome::pass(hash_str(name), false, vec!["fixed_reproducer_passes(defect_fixed?)".into()], format!("known/C24/{name}: no difference"))
+}
+
+/// Reproducer of DEP_ORDER_KNOWN: build the fixed project with two path
+/// dependencies up to 8 times in fresh processes and compare the filelists.
+fn fixed_dep_order() -> Outcome {
+    let src = PathBuf::from("/verif/known/C24/two-path-dependencies");
+    if !src.is_dir() {
+        return Outcome::skip("reproducer two-path-dependencies is missing");
+    }
+    let ws = Workspace::new("c24g", "prj");
+    for (rel, bytes) in vcore::util::read_tree(&src) {
+        // the tree holds prj/, dep_a/, dep_b/ side by side
+        ws.write(&format!("../{rel}"), &String::from_utf8_lossy(&bytes));
+    }
+    let mut first: Option<String> = None;
+    for i in 0..8 {
+        let r = ws.veryl(&["build"]);
+        if r.code != Some(0) {
+            return Outcome::skip(format!("reproducer does not build (exit {:?})", r.code));
+        }
+        let fl = ws.read("prj.f").unwrap_or_default();
+        match &first {
+            None => first = Some(fl),
+            Some(f) if *f != fl => {
+                return Outcome::fail(
+                    DEP_ORDER_KNOWN,
+                    format!("build 1 and build {} of known/C24/two-path-dependencies/prj wrote different filelists:\n{f}---\n{fl}", i + 1),
+                    json!({"reproducer": "two-path-dependencies"}),
+                );
+            }
+            _ => {}
+        }
+    }
+    Outcome::pass(hash_str("two-path-dependencies"), false, vec!["fixed_reproducer_passes(defect_fixed?)".into()], "8 builds, one filelist".into())
 }
 
 // ------------------------------------------------------------------- CLI
@@ -368,8 +550,60 @@ fn kind_of(diff: &str) -> &'static str {
     }
 }
 
+/// Known finding: `Lockfile::paths` walks a `HashMap` with a per-process
+/// random hasher, so the files of two or more dependency projects are
+/// analysed in another order from run to run; the topological order
+/// `sort_filelist` derives (lines of the filelist, order inside a bundle)
+/// follows.
+const DEP_ORDER_KNOWN: &str = "cli/run-to-run:dependency-projects-in-hashmap-order";
+
+/// Are all differences between two output trees of the *same* build explained
+/// by DEP_ORDER_KNOWN (same filelist lines in another order / same bundle
+/// blocks in another order), given that the project has >= 2 dependencies?
+fn explained_by_dep_order(p: &P2Project, a: &OutTree, b: &OutTree) -> bool {
+    if p.deps.len() < 2 || a.len() != b.len() {
+        return false;
+    }
+    let fl = p.root.cfg.filelist_name();
+    let bundle = match &p.root.cfg.target {
+        Target::Bundle(x) => Some(x.clone()),
+        _ => None,
+    };
+    for (k, v) in a {
+        let Some(w) = b.get(k) else { return false };
+        if v == w {
+            continue;
+        }
+        let (x, y) = (String::from_utf8_lossy(v), String::from_utf8_lossy(w));
+        if *k == fl {
+            let mut lx: Vec<&str> = x.lines().collect();
+            let mut ly: Vec<&str> = y.lines().collect();
+            lx.sort();
+            ly.sort();
+            if lx != ly {
+                return false;
+            }
+        } else if Some(k) == bundle.as_ref() {
+            // a bundle is the concatenation of the per-file outputs in filelist
+            // order: the lines between definitions travel with their file
+            let (mut bx, mut ox) = sv_blocks(&x);
+            let (mut by, mut oy) = sv_blocks(&y);
+            bx.sort();
+            by.sort();
+            ox.sort();
+            oy.sort();
+            if bx != by || ox != oy {
+                return false;
+            }
+        } else {
+            return false;
+        }
+    }
+    true
+}
+
 fn cli_case(d: &mut Draw, thorough: bool) -> Outcome {
-    let p = gen_p2(d, &gen_opts(thorough, 60));
+    let p = gen_p2(d, &gen_opts(thorough, 60, [8, 6, 1]));
     let ws1 = Workspace::new("c24b", &p.root.cfg.name);
     p.write(&ws1, false);
     let summary = p.summary();
@@ -416,12 +650,17 @@ fn cli_case(d: &mut Draw, thorough: bool) -> Outcome {
             mk(&ws1, &ws2, json!(null)),
         );
     }
+    let mut dep_order_known: Option<String> = None;
     if let Some(diff) = vproj::cli::diff_trees(&norm_tree(&t1, &ws1), &norm_tree(&t2, &ws2), "copy1", "copy2") {
+        if explained_by_dep_order(&p, &norm_tree(&t1, &ws1), &norm_tree(&t2, &ws2)) {
+            dep_order_known = Some(format!("two copies of one project, `veryl build` in separate processes:\n{diff}"));
+        } else {
         return Outcome::fail(
             format!("cli/two-runs-differ:{}", kind_of(&diff)),
             format!("`veryl build` on two copies of one project (separate processes) leaves different outputs:\n{diff}project: {summary}"),
             mk(&ws1, &ws2, json!({"diff": diff})),
         );
+        }
     }
     let mut classes = common_classes(&p, p.files().len());
 
@@ -444,11 +683,15 @@ fn cli_case(d: &mut Draw, thorough: bool) -> Outcome {
             );
         }
         if let Some(diff) = vproj::cli::diff_trees(&t1, &t3, "first-build", "after-clean") {
+            if explained_by_dep_order(&p, &t1, &t3) {
+                dep_order_known.get_or_insert(format!("`veryl build`, `veryl clean`, `veryl build` in one directory:\n{diff}"));
+            } else {
             return Outcome::fail(
                 format!("cli/rebuild-after-clean-differs:{}", kind_of(&diff)),
                 format!("`veryl build`, `veryl clean`, `veryl build` in one directory: outputs differ:\n{diff}project: {summary}"),
                 mk(&ws1, &ws2, json!({"diff": diff})),
             );
+            }
         }
         classes.insert("clean_and_rebuild".into());
     } else {
@@ -469,10 +712,22 @@ fn cli_case(d: &mut Draw, thorough: bool) -> Outcome {
         );
     }
     if let Some(diff) = vproj::cli::diff_trees(&t2, &t4, "first-build", "second-build") {
+        if explained_by_dep_order(&p, &t2, &t4) {
+            dep_order_known.get_or_insert(format!("`veryl build` twice in one directory:\n{diff}"));
+        } else {
         return Outcome::fail(
             format!("cli/second-build-differs:{}", kind_of(&diff)),
             format!("running `veryl build` twice in one directory changes the outputs:\n{diff}project: {summary}"),
             mk(&ws2, &ws1, json!({"diff": diff})),
+        );
+        }
+    }
+    if let Some(msg) = dep_order_known {
+        // the remaining step compares against a moving target: stop here
+        return Outcome::fail(
+            DEP_ORDER_KNOWN,
+            format!("{msg}(same lines / definitions in another order; the project has {} dependency projects)\nproject: {summary}", p.deps.len()),
+            mk(&ws1, &ws2, json!(null)),
         );
     }
 
@@ -510,7 +765,40 @@ fn cli_case(d: &mut Draw, thorough: bool) -> Outcome {
                 .map(|(k, v)| (k.clone(), v.clone()))
                 .collect()
         };
-        if let Some(diff) = vproj::cli::diff_trees(&strip(&t2), &strip(&t5), "veryl-build", "explicit-permuted-files") {
+        // known finding (see GENERIC_ORDER_KNOWN): files whose blocks only change order
+        let mut t5c = strip(&t5);
+        let t2c = strip(&t2);
+        let mut known_files: Vec<String> = vec![];
+        for (k, v) in t2c.iter() {
+            if let Some(w) = t5c.get(k)
+                && w != v
+                && k.ends_with(".sv")
+                && only_block_order_differs(&String::from_utf8_lossy(v), &String::from_utf8_lossy(w))
+            {
+                known_files.push(k.clone());
+            }
+        }
+        for k in &known_files {
+            // its source map necessarily differs too
+            t5c.insert(k.clone(), t2c[k].clone());
+            let mk_ = format!("{k}.map");
+            if let Some(m) = t2c.get(&mk_) {
+                t5c.insert(mk_, m.clone());
+            }
+            let alt = format!("maps/{}.map", k);
+            if let Some(m) = t2c.get(&alt) {
+                t5c.insert(alt, m.clone());
+            }
+        }
+        if let Some(diff) = vproj::cli::diff_trees(&t2c, &t5c, "veryl-build", "explicit-permuted-files") {
+            if !known_files.is_empty() && diff.lines().all(|l| l.contains(".sv.map")) {
+                // a map of a reordered file stored elsewhere (sourcemap directory)
+                return Outcome::fail(
+                    GENERIC_ORDER_KNOWN,
+                    format!("`veryl build {}` emits the definitions of {known_files:?} in another order than `veryl build`\nproject: {summary}", permuted.join(" ")),
+                    mk(&ws2, &ws1, json!({"args": permuted, "files": known_files})),
+                );
+            }
             return Outcome::fail(
                 format!("cli/explicit-file-order:{}", kind_of(&diff)),
                 format!("`veryl build {}` (all project files, permuted) leaves other bytes than `veryl build`:\n{diff}project: {summary}", permuted.join(" ")),
@@ -535,6 +823,13 @@ fn cli_case(d: &mut Draw, thorough: bool) -> Outcome {
                     lines(&t5)
                 ),
                 mk(&ws2, &ws1, json!({"args": permuted})),
+            );
+        }
+        if !known_files.is_empty() {
+            return Outcome::fail(
+                GENERIC_ORDER_KNOWN,
+                format!("`veryl build {}` emits the definitions of {known_files:?} in another order than `veryl build`\nproject: {summary}", permuted.join(" ")),
+                mk(&ws2, &ws1, json!({"args": permuted, "files": known_files})),
             );
         }
         if t2.get(&fl) != t5.get(&fl) {
@@ -566,11 +861,16 @@ pub fn run(ctx: &Ctx) {
         println!("INCONCLUSIVE property={}: cannot expand the standard library: {e}", ctx.id);
         std::process::exit(2);
     }
-    let mut na = ctx.scale(320, 5000);
-    let mut nb = ctx.scale(110, 2500);
+    let mut na = ctx.scale(220, 5000);
+    let mut nb = ctx.scale(64, 2500);
     if let Some(k) = std::env::var("VERIF_C24_CASES").ok().and_then(|x| x.parse::<usize>().ok()) {
         na = k; // development aid
         nb = k / 3;
+    }
+    if !ctx.replay_mode() {
+        let out = fixed_case("generic-instance-order");
+        ctx.record("fixed", out, json!({"reproducer": "generic-instance-order"}));
+        ctx.record("fixed", fixed_dep_order(), json!({"reproducer": "two-path-dependencies"}));
     }
     ctx.run("permute", CaseCfg::cases(na).choices(2500).timeout_s(600).shrink_iters(60), move |d| {
         permute_case(d, thorough)
@@ -580,7 +880,7 @@ pub fn run(ctx: &Ctx) {
     });
     drop(xdg);
     ctx.assume("in-process sub: veryl::pipeline::analyze (fail_fast, incremental off) + Emitter::new/emit/source_map as cmd_build calls them, on the PathSet list of Metadata::paths; each order on a fresh 8 MiB thread; the fragment cache is not involved (C04)");
-    ctx.assume("diagnostic identity = severity, code, rendered message, owning file, label offsets/lengths/texts");
+    ctx.assume("diagnostic identity = severity, code, rendered message, owning file, label offsets/lengths/texts; compared as a SET as the property states (the analyzer repeats a warning of a module once per elaboration of it, and how often depends on the processing order: counted as a class, not asserted)");
     ctx.assume("the order of the lines of the filelist (and so of a bundle) under a permuted processing order is not asserted here (any topological order satisfies C25); for identical processing order (two copies, rebuild, second build) the filelist must be byte-identical");
     ctx.assume("CLI sub: outputs = *.sv, *.sv.map, *.f, *.list.rb outside .build; the absolute scratch path is normalised when two copies at different paths are compared; `[build] incremental = false`");
     ctx.assume("projects with file-level dependency cycles are excluded by construction (veryl panics on them: known C06 side finding); projects the compiler rejects are skipped and counted");
